@@ -95,9 +95,11 @@ func c01Jobs(thorough bool) []c01Job {
 		add([]string{"abcde", "ceeac", "eeeee", "cbadc", "dcbae", "ccccc", "aeaea"}, []uint64{1, 3, 0}, all, map[string]bool{"abcde": true, "ceeac": true})
 		return jobs
 	}
-	// quick: every 3-letter word over {empty, 1 log, decoys} with four (batch,conc) pairs; all 20 pairs on longer words
-	add(words("eab", 3), []uint64{1, 0}, [][2]int{{1, 1}, {3, 2}, {2, 3}}, map[string]bool{"eab": true, "bae": true})
-	add([]string{"abcde", "ceeac", "cbadc"}, []uint64{1, 3, 0}, all, map[string]bool{"ceeac": true})
+	// quick: every 3-letter word over {empty, 1 log, decoys} with two (batch,conc) pairs; all 20 pairs on two longer words;
+	// single faults at every I/O point on a few jobs
+	add(words("eab", 3), []uint64{1, 0}, [][2]int{{1, 1}, {3, 2}}, nil)
+	add([]string{"abcde", "ceeac"}, []uint64{1, 3, 0}, all, nil)
+	add([]string{"bae", "eab"}, []uint64{1}, [][2]int{{1, 1}, {3, 2}}, map[string]bool{"bae": true, "eab": true})
 	return jobs
 }
 
@@ -179,7 +181,7 @@ func errClass(err error) string {
 	return numRe.ReplaceAllString(s, "N")
 }
 
-func c01Exec(j c01Job, p *c01Prep, ch vrt.Chooser, states map[uint64]struct{}, trace bool) (res c01Result) {
+func c01Exec(j c01Job, p *c01Prep, ch vrt.Chooser, states *vrt.StateSet, trace bool) (res c01Result) {
 	w := world.New(ch, world.Cfg{Snap: p.snap, Chains: map[string]*simeth.Chain{"node1": p.init}})
 	w.V.States = states
 	w.V.TraceOn = trace
@@ -233,23 +235,27 @@ func c01Exec(j c01Job, p *c01Prep, ch vrt.Chooser, states map[uint64]struct{}, t
 			}
 			lo := before.Num + 1
 			if !hadBefore {
-				// first successful step: determine the first indexed block from the cursor row's nblocks
-				nb := uint64(0)
-				for _, r := range w.PG.Dump("shovel.task_updates") {
-					if x, ok := r.Vals["nblocks"].(interface{ Uint64() uint64 }); ok {
-						nb = x.Uint64()
+				// first successful step: the first indexed block is `start`, or — start at head — some head
+				// the node announced between task creation and now (the nblocks statistic is not used: it
+				// records the planned delta, not what was loaded)
+				if j.Start > 0 {
+					first = j.Start
+				} else {
+					first = 0
+					for f := headAtCreate; f <= head && f <= cur.Num; f++ {
+						want := world.RenderRows(d.Expect(p.full, "src1", 7, f, cur.Num, nil), cols)
+						if strings.Join(dump, "\n") == strings.Join(want, "\n") && int(cur.Num-f+1) <= j.Batch {
+							first = f
+							break
+						}
+					}
+					if first == 0 {
+						vio("range", "first-block-head:"+tag, fmt.Sprintf("start at head: cursor %d; table matches the projection of [f..%d] (at most batch blocks) for no announced head f in [%d,%d]\n%s", cur.Num, cur.Num, headAtCreate, head,
+							world.DiffSorted(dump, world.RenderRows(d.Expect(p.full, "src1", 7, headAtCreate, cur.Num, nil), cols))))
+						return false
 					}
 				}
-				lo = cur.Num - nb + 1
-				first = lo
-				if j.Start > 0 && first != j.Start {
-					vio("range", "first-block:"+tag, fmt.Sprintf("start=%d but first indexed block is %d", j.Start, first))
-					return false
-				}
-				if j.Start == 0 && (first < headAtCreate || first > head) {
-					vio("range", "first-block-head:"+tag, fmt.Sprintf("start at head: first indexed block %d not in announced heads [%d,%d]", first, headAtCreate, head))
-					return false
-				}
+				lo = first
 			}
 			if cur.Num < lo || cur.Num > head || int(cur.Num-lo+1) > j.Batch {
 				vio("cursor", "cursor-advance:"+tag, fmt.Sprintf("cursor moved %d→%d with head=%d batch=%d", lo-1, cur.Num, head, j.Batch))
@@ -394,7 +400,7 @@ func c01Run(c *fw.Ctx) {
 			c.HarnessError("prepare %+v: %v", j, err)
 			return
 		}
-		states := map[uint64]struct{}{}
+		states := vrt.NewStateSet()
 		b := c01Bounds(c.Thorough(), j.Faults)
 		st := explore.Explore(b, true, func(r *explore.Run) bool {
 			res := c01Exec(j, p, r, states, false)
@@ -418,7 +424,7 @@ func c01Run(c *fw.Ctx) {
 			}
 			return !c.Expired()
 		})
-		c.Res.States += int64(len(states))
+		c.Res.States += int64(states.Len())
 		if dbg := os.Getenv("C01_DEBUG"); dbg != "" {
 			f, _ := os.OpenFile(dbg, os.O_APPEND|os.O_CREATE|os.O_WRONLY, 0o644)
 			fmt.Fprintf(f, "job %+v: executions=%d points=%d maxdepth=%d complete=%v\n", j, st.Executions, st.Points, st.MaxDepth, st.Complete)
